@@ -599,6 +599,70 @@ theorem contentOf_spec (a : Ast) : ∀ u c u', contentOf a u = .ok (c, u') →
       · rw [itemsMentions, addAll_append, ← e1, e2]
       · simp [sameItemsShape, s1, s2]
 
+/-! ## the shape of the children, list-wise -/
+
+theorem samePropsShape_iff (l : List Ast) (cs : List Content) :
+    samePropsShape l cs = true ↔
+      cs.length = l.length ∧ ∀ p ∈ l.zip cs, p.2.key = some p.1.key ∧ sameShape p.1 p.2 = true := by
+  induction l generalizing cs with
+  | nil => cases cs <;> simp [samePropsShape]
+  | cons a rest ih =>
+    cases cs with
+    | nil => simp [samePropsShape]
+    | cons c cs =>
+      rw [samePropsShape]
+      simp only [Bool.and_eq_true, beq_iff_eq, ih, List.length_cons, Nat.add_right_cancel_iff, List.zip_cons_cons,
+        List.mem_cons, forall_eq_or_imp]
+      constructor
+      · rintro ⟨⟨h1, h2⟩, h3, h4⟩
+        exact ⟨h3, ⟨h1, h2⟩, h4⟩
+      · rintro ⟨h3, ⟨h1, h2⟩, h4⟩
+        exact ⟨⟨h1, h2⟩, h3, h4⟩
+
+theorem sameItemsShape_iff (l : List Ast) (cs : List Content) :
+    sameItemsShape l cs = true ↔
+      cs.length = l.length ∧ ∀ p ∈ l.zip cs, p.2.optional = true ∧ sameShape p.1 p.2 = true := by
+  induction l generalizing cs with
+  | nil => cases cs <;> simp [sameItemsShape]
+  | cons a rest ih =>
+    cases cs with
+    | nil => simp [sameItemsShape]
+    | cons c cs =>
+      rw [sameItemsShape]
+      simp only [Bool.and_eq_true, ih, List.length_cons, Nat.add_right_cancel_iff, List.zip_cons_cons,
+        List.mem_cons, forall_eq_or_imp]
+      constructor
+      · rintro ⟨⟨h1, h2⟩, h3, h4⟩
+        exact ⟨h3, ⟨h1, h2⟩, h4⟩
+      · rintro ⟨h3, ⟨h1, h2⟩, h4⟩
+        exact ⟨⟨h1, h2⟩, h3, h4⟩
+
+theorem samePropsShape_keys {l : List Ast} {cs : List Content} (h : samePropsShape l cs = true) :
+    cs.map Content.key = l.map (fun k => some k.key) := by
+  induction l generalizing cs with
+  | nil => cases cs <;> simp_all [samePropsShape]
+  | cons a rest ih =>
+    cases cs with
+    | nil => simp [samePropsShape] at h
+    | cons c cs =>
+      rw [samePropsShape] at h
+      simp only [Bool.and_eq_true, beq_iff_eq] at h
+      simp [h.1.1, ih h.2]
+
+theorem sameItemsShape_optional {l : List Ast} {cs : List Content} (h : sameItemsShape l cs = true) :
+    cs.length = l.length ∧ ∀ k ∈ cs, k.optional = true := by
+  induction l generalizing cs with
+  | nil => cases cs <;> simp_all [sameItemsShape]
+  | cons a rest ih =>
+    cases cs with
+    | nil => simp [sameItemsShape] at h
+    | cons c cs =>
+      rw [sameItemsShape] at h
+      simp only [Bool.and_eq_true] at h
+      obtain ⟨hl, ho⟩ := ih h.2
+      simp only [List.length_cons, hl, List.mem_cons, forall_eq_or_imp, h.1.1, true_and]
+      exact ho
+
 /-! ## no fault on well-formed ASTs -/
 
 theorem orItems_total {st : Bytes} {items : List RuleAst} (h : items.all (fun i => !(orItemType st i).isEmpty) = true)
@@ -1020,5 +1084,77 @@ instance {ε α : Type} [DecidableEq ε] [DecidableEq α] : DecidableEq (Except 
   | .error a, .error b => if h : a = b then isTrue (by rw [h]) else isFalse (by intro e; cases e; exact h rfl)
   | .ok _, .error _ => isFalse (by intro e; cases e)
   | .error _, .ok _ => isFalse (by intro e; cases e)
+
+/-! ## the Prop-level vocabulary and its unfoldings -/
+
+/-- the content tree has the shape of the AST, recursively (`sameShape`) -/
+def SameShape (a : Ast) (c : Content) : Prop := sameShape a c = true
+instance (a : Ast) (c : Content) : Decidable (SameShape a c) := inferInstanceAs (Decidable (_ = true))
+
+/-- what `SameShape` says at a node -/
+theorem SameShape_iff (a : Ast) (c : Content) :
+    SameShape a c ↔
+      c.tokenType = a.tokenType ∧ c.type = a.schemaType ∧ c.scalar = a.value ∧ c.note = annotation a.comment ∧
+      c.isKeyRef = a.isKeyShortcut ∧
+      (a.tokenType = bObject → c.kids.length = a.children.length ∧
+        ∀ p ∈ a.children.zip c.kids, p.2.key = some p.1.key ∧ SameShape p.1 p.2) ∧
+      (a.tokenType = bArray → c.kids.length = a.children.length ∧
+        ∀ p ∈ a.children.zip c.kids, p.2.optional = true ∧ SameShape p.1 p.2) ∧
+      (a.tokenType ≠ bObject → a.tokenType ≠ bArray → c.kids = []) := by
+  obtain ⟨tt, st, k, v, cm, rules, children, kr⟩ := a
+  unfold SameShape
+  rw [sameShape_node]
+  simp only [Bool.and_eq_true, beq_iff_eq, Ast.tokenType, Ast.schemaType, Ast.value, Ast.comment, Ast.isKeyShortcut,
+    Ast.children, and_assoc]
+  refine and_congr_right fun _ => and_congr_right fun _ => and_congr_right fun _ => and_congr_right fun _ =>
+    and_congr_right fun _ => ?_
+  unfold sameKidsShape
+  by_cases e1 : tt = bObject
+  · subst e1
+    have : bObject ≠ bArray := by decide
+    simp [samePropsShape_iff, this]
+  · by_cases e2 : tt = bArray
+    · subst e2
+      simp [sameItemsShape_iff, e1]
+    · simp [e1, e2]
+
+/-- one rule cannot fault -/
+def RuleWF (st : Bytes) (kv : Bytes × RuleAst) : Prop :=
+  (kv.1 = bType → kv.2.value ≠ []) ∧ (kv.1 = bAdditional → kv.2.value ≠ []) ∧
+  (kv.1 = bOr → ∀ i ∈ kv.2.items, orItemType st i ≠ []) ∧
+  (kv.1 = bOptional → ∃ b, parseBool kv.2.value = some b)
+
+theorem ruleWF_iff (st : Bytes) (kv : Bytes × RuleAst) : ruleWF st kv = true ↔ RuleWF st kv := by
+  unfold ruleWF RuleWF
+  simp only [Bool.and_eq_true, Bool.or_eq_true, Bool.not_eq_true', beq_eq_false_iff_ne, ne_eq, List.isEmpty_eq_false_iff,
+    List.all_eq_true, Option.isSome_iff_exists, and_assoc]
+  have imp : ∀ (x : Bytes) (B : Prop), (¬kv.1 = x ∨ B) ↔ (kv.1 = x → B) := fun x B =>
+    (Decidable.imp_iff_not_or).symm
+  simp only [imp]
+
+/-- every "type" and "additionalProperties" rule has a non-empty value, every "or" item resolves to a non-empty type
+name, every "optional" rule holds a boolean word — at every node the conversion visits -/
+def WellFormed (a : Ast) : Prop := wellFormed a = true
+instance (a : Ast) : Decidable (WellFormed a) := inferInstanceAs (Decidable (_ = true))
+
+theorem allWF_iff (l : List Ast) : allWF l = true ↔ ∀ k ∈ l, wellFormed k = true := by
+  induction l with
+  | nil => simp [allWF]
+  | cons a rest ih => rw [allWF]; simp [ih]
+
+theorem WellFormed_iff (a : Ast) :
+    WellFormed a ↔ (∀ kv ∈ a.rules, RuleWF a.schemaType kv) ∧
+      (a.tokenType = bObject ∨ a.tokenType = bArray → ∀ k ∈ a.children, WellFormed k) := by
+  obtain ⟨tt, st, k, v, cm, rules, children, kr⟩ := a
+  unfold WellFormed
+  rw [wellFormed_node]
+  simp only [Bool.and_eq_true, List.all_eq_true, ruleWF_iff, Ast.rules, Ast.schemaType, Ast.tokenType, Ast.children]
+  refine and_congr_right fun _ => ?_
+  by_cases e : tt = bObject ∨ tt = bArray
+  · have : (tt == bObject || tt == bArray) = true := by simpa using e
+    simp [this, e, allWF_iff]
+  · have : (tt == bObject || tt == bArray) = false := by
+      simpa [Bool.or_eq_false_iff, not_or] using e
+    simp [this, e]
 
 end JSight.SC
